@@ -3,6 +3,7 @@ package zzverifctl
 import (
 	"encoding/json"
 	"errors"
+	"time"
 )
 
 type n1doc struct{ Name string }
@@ -125,4 +126,23 @@ func Good_E3N3_guarded(d *n1doc, v string) error {
 		return errors.New("mismatch")
 	}
 	return nil
+}
+
+// the seeded C09B shape: a duration decoded from a response handed to time.NewTicker unchecked
+func Bad_E4Rprecondition_ticker(intervalSeconds int) {
+	interval := time.Duration(intervalSeconds) * time.Second
+	if interval == 0 {
+		interval = 5 * time.Second
+	}
+	t := time.NewTicker(interval)
+	defer t.Stop()
+}
+
+func Good_E4Rprecondition_guarded(intervalSeconds int) {
+	interval := time.Duration(intervalSeconds) * time.Second
+	if interval <= 0 {
+		interval = 5 * time.Second
+	}
+	t := time.NewTicker(interval)
+	defer t.Stop()
 }
